@@ -93,7 +93,7 @@ def h_table(ctx):
     ctx.outcome('ok')
     ctx.check_eq('table/is_RELA', tab.is_RELA(), rela)
     ctx.check_eq('table/num_relocations', tab.num_relocations(), k)
-    got = list(tab.iter_relocations())
+    got = ctx.drain(tab.iter_relocations())
     ctx.check_eq('table/count', len(got), k)
     shift, mask = (8, 0xff) if cls == 32 else (32, 0xffffffff)
     for g, w in zip(got, ents):
